@@ -33,8 +33,10 @@ Gateway == "a01"
 Nodes == <<"a01", "a02", "a03">>
 Owners == <<[did |-> "d1", acc |-> "a05"], [did |-> "d2", acc |-> "a06"]>>
 
+\* family sponsor: d2 never registers a payment address - only a sponsor (d1) can pay for what d2 owns
+PayingOwners == IF Family = "sponsor" THEN <<Owners[1]>> ELSE Owners
 SetupEvents ==
-    [i \in 1..Len(Owners) |-> [E0 EXCEPT !.kind = "PayAddr", !.creator = Owners[i].acc, !.acc = Owners[i].acc, !.did = Owners[i].did]]
+    [i \in 1..Len(PayingOwners) |-> [E0 EXCEPT !.kind = "PayAddr", !.creator = PayingOwners[i].acc, !.acc = PayingOwners[i].acc, !.did = PayingOwners[i].did]]
     \o FlattenSeq([i \in 1..Len(Nodes) |->
          << [E0 EXCEPT !.kind = "Create", !.creator = Nodes[i]],
             [E0 EXCEPT !.kind = "Reset", !.creator = Nodes[i], !.status = IF Nodes[i] = Gateway THEN 15 ELSE 13,
@@ -195,6 +197,21 @@ SidAuthEvents(s) ==
           ELSE {[E0 EXCEPT !.kind = "Binding", !.creator = "a09", !.acc = "a11", !.did = "s1"]})
     \cup {[E0 EXCEPT !.kind = "Blocks", !.n = 1]}
 
+\* sponsor: orders of an owner WITHOUT a payment address, paid by a sponsor (payment did d1, submitted by its address):
+\* every way such an order can end - completion and expiry, cancellation, termination by the owner, one provider silent
+\* for ever (re-assignment, then the replica is given up and its price refunded) - with every refund accounted for
+\* (C04 conservation, C05 refunds, C06 escrows on every step).
+SponsorEvents(s) ==
+    (IF s.oc <= 2 /\ ~HasMeta(s, "D1") THEN
+        {[E0 EXCEPT !.kind = "Store", !.creator = "a05", !.provider = Gateway, !.gw = Gateway, !.owner = "d2", !.signer = "d2", !.paydid = "d1",
+                    !.data = "D1", !.commit = "D1", !.cseg = <<"D1">>, !.op = 1, !.dur = du, !.replica = r, !.timeout = t, !.size = 10000,
+                    !.alias = "alD1"] : du \in Durs, r \in Replicas, t \in Timeouts}
+     ELSE {})
+    \cup Completes(s) \cup Cancels(s)
+    \cup {[E0 EXCEPT !.kind = "Terminate", !.creator = Gateway, !.provider = Gateway, !.owner = m.owner, !.signer = m.owner, !.data = m.data] : m \in Rng(s.metas)}
+    \cup (LET nx == NextScheduled(Cfg, Work(s)) IN
+          IF nx = -1 \/ nx - s.h > 12000 THEN {} ELSE {[E0 EXCEPT !.kind = "Blocks", !.n = nx - s.h + 1]})
+
 \* generator extras: did, staking and fault events in the same behaviours as the storage life cycle
 GenDid(s) ==
     {[E0 EXCEPT !.kind = "Binding", !.creator = c, !.acc = a, !.did = "s1", !.amount = t, !.sigmode = m] :
@@ -243,6 +260,7 @@ Events(s) ==
       [] Family = "reward" -> RewardEvents(s)
       [] Family = "auth"   -> AuthEvents(s)
       [] Family = "sidauth" -> SidAuthEvents(s)
+      [] Family = "sponsor" -> SponsorEvents(s)
       [] Family = "gen" -> GStoreNew(s) \cup GStoreUpd(s) \cup GCompletes(s) \cup GCancels(s) \cup GSigned(s)
                            \cup Migrates(s) \cup Claims(s) \cup GBlocks(s) \cup GenDid(s) \cup GenStaking(s) \cup GenFaults(s)
       [] Family = "pay" -> StoreNew(s) \cup StoreUpd(s) \cup Completes(s) \cup Cancels(s) \cup Terminates(s) \cup Renews(s)
